@@ -176,8 +176,8 @@ CLAIMED["C14"] = {
             "Outdated historical-rescan results arriving after the details were found at tip are inside the theorems' "
             "hypotheses and proved to be ignored; every run additionally replays a restart on the same hint cache "
             "(re-register with the cached hint, truthful rescan): a client must be notified iff the tx has >= N "
-            "confirmations / the outpoint is spent on the final chain. 14 theorems.",
-    "note": Hypotheses of the theorems: client "
+            "confirmations / the outpoint is spent on the final chain. 26 theorems.",
+    "note": "Hypotheses of the theorems: client "
             "hints <= actual height, truthful rescan answers, ConnectTip/NotifyHeight pairing, single inclusion per chain, "
             "reorg depth < safety limit, unwatched inclusions at or above the cached hint; model-predicted Go panics "
             "excluded. Trusted: Coq kernel, harness, python predicate. No axioms.",
